@@ -36,7 +36,7 @@ def partitions(tier, seed):
     ccs = sp.cc_list()
     if quick:
         core = [c for c in ccs if sp.cc_name(c) in CORE]
-        ccs = sorted(set(sp.rotate(ccs, seed + 4, 14) + core))
+        ccs = sorted(set(sp.rotate(ccs, seed + 4, 9) + core))
     for cc in ccs:
         for label, data in G.commands(cc, minimal=quick):
             tr = sp.trace_of(sp.cmd_key(), data)
